@@ -70,6 +70,15 @@ var c18Tmpls = []c18Tmpl{
 	// set! of a symbol bound nowhere, deep inside a function: the symbol itself, not the top-level form
 	{"(defun f () (let ((a 1)) (set! nope 2))) (list (f))", "sym:nope", ""},
 	{"(defun thrower () (error 'a-err 3)) (handler-bind ((a-err (lambda (c &rest x) (ignore-errors (car 5)) (rethrow)))) (thrower))", "call:error", ""},
+	// a user function REFUSING its arguments (every way argument binding can fail): the call expression
+	{"(defun f (x &key a b) x) (defun g () (+ 1 (f 1 2 3))) (g)", "call:f", ""},
+	{"(defun f (x &key a b) x) (list (f 1 :a))", "call:f", ""},
+	{"(defun f (x &key a) x) (progn (f 1 :zz 2))", "call:f", ""},
+	{"(defun f (x &optional y) x) (progn (f 1 2 3))", "call:f", ""},
+	{"(defun f (x &rest r) x) (list (f))", "call:f", ""},
+	{"(defun f (x &key a b) x) (map 'list (lambda (v) (f v 2 3)) (list 1))", "call:f", ""},
+	{"(defun lp (n &key a) (if (= n 0) (lp 1 2 3) (lp (- n 1) :a 1))) (defun g (x) (+ 1 (lp x))) (g 2)", "call:lp", ""},
+	{"(defun lp (n &key a) (if (= n 0) (lp 1 :a) (lp (- n 1) :a 1))) (defun g (x) (+ 1 (lp x))) (g 2)", "call:lp", ""},
 }
 
 type c18Walk struct {
@@ -242,9 +251,16 @@ func VerifC18_ETrace() {
 		"(defun g (y) (if y user:nope 1)) (defun h (y) (+ 1 (g y))) (h 2)",
 		"(defun g (y) (let ((z user:nope)) z)) (defun h (y) (list (g y))) (defun k () (h 5)) (k)",
 		"(defun g (y) (progn 1 user:nope)) (defun h (y) (+ 1 (g y))) (handler-bind ((condition (lambda (c &rest a) (rethrow)))) (h 2))",
+		// a function that REFUSES its arguments is itself an active call: its frame is in the trace
+		"(defun g (y &key a b) y) (defun h (y) (+ 1 (g y 2 3))) (h 2)",
+		"(defun g (y &key a b) y) (defun h (y) (list (g y :a))) (defun k () (h 5)) (k)",
+		"(defun g (y &key a) y) (defun h (y) (+ 1 (g y :zz 1))) (handler-bind ((condition (lambda (c &rest a) (rethrow)))) (h 2))",
+		"(defun g (y) y) (defun h (y) (+ 1 (g y 2 3))) (h 2)",
+		"(defun g (y &key a b) y) (defun h (y) (car (map 'list (lambda (v) (g v 2 3)) (list y)))) (handler-bind ((condition (lambda (c &rest a) (rethrow)))) (h 2))",
 	}
 	// active user calls innermost first (the raising builtin itself is frame 0)
-	chains := [][]string{{"g", "h"}, {"g", "h", "k"}, {"g", "h"}, {"g", "h"}, {"g", "h"}, {"g", "h", "k"}, {"g", "h"}}
+	chains := [][]string{{"g", "h"}, {"g", "h", "k"}, {"g", "h"}, {"g", "h"}, {"g", "h"}, {"g", "h", "k"}, {"g", "h"},
+		{"g", "h"}, {"g", "h", "k"}, {"g", "h"}, {"g", "h"}, {"g", "h"}}
 	si := vndChoice("src", len(srcs))
 	exprs, nodes, locs := c18Prepare(srcs[si])
 	env := newEnv(nil)
@@ -263,7 +279,7 @@ func VerifC18_ETrace() {
 		}
 	}
 	vAssert(sameStrings(names, chains[si]), "the trace lists the active calls innermost first: "+strings.Join(names, " "))
-	if si >= 3 {
+	if si >= 3 && si <= 6 {
 		// every call that was active, operators included, innermost first
 		full := [][]string{nil, nil, nil, {"if", "g", "h"}, {"if", "g", "h"}, {"let", "g", "h", "k"}, {"progn", "g", "h", "handler-bind"}}[si]
 		var all []string
